@@ -56,6 +56,13 @@ def run(case):
                             coords={'lat': ('lat', numpy.arange(ny) * 1.0, {'units': 'degrees_north'}), 'lon': ('lon', numpy.arange(nx) * 1.0, {'units': 'degrees_east'})})
         ems = ds.ems
         return {'wind': [list(map(int, ems.wind_index(n))) for n in range(ny * nx)], 'ravel': [int(ems.ravel_index((j, i))) for j in range(ny) for i in range(nx)]}
+    if f == 'np_reshape':
+        vals = numpy.arange(int(numpy.prod(case['shape'])))
+        if case['layout'] == 'F' and len(case['shape']) > 1:
+            a = vals.reshape(case['shape'][::-1]).T
+        else:
+            a = vals.reshape(case['shape'])
+        return {'r': numpy.reshape(a, tuple(case['new']), order=case['order']).tolist()}
     raise KeyError(f)
 
 
